@@ -296,7 +296,11 @@ func (e *Exec) cover(label string) {
 	e.covers[label] = true
 	if e.wantCoverModels {
 		if e.feasible() == Sat {
-			e.coverModel[label] = e.model()
+			m := e.model()
+			if e.usedUF {
+				m["__uf"] = "1"
+			}
+			e.coverModel[label] = m
 		}
 	}
 }
